@@ -28,7 +28,11 @@ impl PanicInfo {
     pub fn json(&self) -> Value { json!({"panic": {"loc": self.loc, "msg": first_line(&self.msg)}}) }
     /// file:line of the panic site with the path made relative to the repo
     pub fn site(&self) -> String {
-        self.loc.trim_start_matches("/repo/").to_string()
+        // relative to the repository root, wherever the tree under test lives
+        match self.loc.find("/src/") {
+            Some(i) if self.loc.starts_with('/') && !self.loc.starts_with("/rustc/") => self.loc[i + 1..].to_string(),
+            _ => self.loc.trim_start_matches("/repo/").to_string(),
+        }
     }
 }
 
